@@ -139,9 +139,16 @@ class Ctx:
         """Obligations about a site whose implementation idiom the analysis failed to recognise (a failed anchor at that
         site) were evaluated on a subject it could not locate: a failure among them is 'not decided' (exit 2), not a
         violation.  Findings listed as known are left alone."""
+        known = load_known()
+        # a formula obligation whose computed value goes through a callable the evaluator could not resolve (shown as <dynamic>(...))
+        # was not evaluated on the formula: the site counts as unrecognised
+        for f in self.findings:
+            if f.rule.startswith("FRM") and "<dynamic>(" in (f.message or "") and "distance_function" not in (f.message or "") and "margin_calculation_function" not in (f.message or ""):
+                if f.site not in self.anchor_failed_sites:
+                    self.anchor_failed_sites.add(f.site)
+                    self.anchor_errors.append("%s: %s computed through an unresolved callable" % (f.site, f.construct[:80]))
         if not self.anchor_failed_sites:
             return
-        known = load_known()
         keep = []
         for f in self.findings:
             is_known = any(k.get("property") == f.pid and k.get("rule") == f.rule and k.get("site") == f.site and k.get("construct") == f.construct for k in known)
